@@ -31,7 +31,9 @@ RULE = (
     "one run = one GEO program from the tape (1-4 objects: box / cylinder / cone / spheroid / two-body mesh, constant or random "
     "sizes and yaw/pitch/roll, positions in/on the workspace, in a container or in a range; rectangular, polygonal (non-convex) "
     "or box workspace; regionContainedIn; allowCollisions False / True / Uniform(True, False); requireVisible + ego with a short "
-    "visibleDistance; 0-3 hard and 0-2 soft user requirements over distances, coordinates and headings with and/or/not; 2D and "
+    "visibleDistance; 0-3 hard and 0-2 soft user requirements over distances, coordinates and headings with and/or/not; 2 in 11 "
+    "programs place two objects at fixed overlapping poses and constant sizes with random collision flags, 2 in 11 sample a small "
+    "convex object inside the bounding box of a fixed non-convex L-prism mesh so that it is often embedded in the solid; 2D and "
     "3D mode) x one history of 30-120 generate(maxIterations from {200,50,10,1000,3}) calls on the same Scenario with a recording "
     "WeightedAcceptanceChecker of buffer size from {100,10,3,1,30}, under a clock script (per-requirement base costs, stalled "
     "clock, and spike / tie / cheapest / dearest faults at tape-chosen calls); distinct = digest of program text + clock script; "
@@ -369,7 +371,7 @@ class History:
 
 def run(tape):
     import scenic
-    from scenic.core.distributions import RejectionException
+    from scenic.core.distributions import RandomControlFlowError, RejectionException
     from scenic.core.errors import InvalidScenarioError
     prog = geogen.generate(tape)
     script = gen_script(tape)
@@ -384,13 +386,15 @@ def run(tape):
     out = {"violations": [], "key": key, "nontrivial": False, "stats": {}, "sample": sample, "steps": 0, "simsec": 0.0}
     stats = out["stats"]
     stats["mode:2D" if prog["mode2D"] else "mode:3D"] = 1
+    if prog["feature"]:
+        stats["layout:" + prog["feature"]] = 1
     clock = SimClock()
     with warnings.catch_warnings(), patched_random(SeededRNG(seed)), patched_clock(clock):
         warnings.simplefilter("ignore")
         np.random.seed(seed)
         try:
             scenario = scenic.scenarioFromString(prog["text"], mode2D=prog["mode2D"])
-        except InvalidScenarioError as e:
+        except (InvalidScenarioError, RandomControlFlowError) as e:  # the latter: fixed object + random allowCollisions + mesh container
             stats["compile-refused:" + type(e).__name__] = 1
             sample["compile_error"] = str(e)[:200]
             out["digest"] = dig.hexdigest()
@@ -405,7 +409,7 @@ def run(tape):
         rec.hook, rec.clock = H.on_candidate, clock
         clock.cost_fn = lambda n: cost_of(script, H.current_req(), H.nreq, H.call, H.fired)
         nonbox = sum(o["shape"] != "box" for o in prog["objs"])  # weight: rough cost of one candidate (deterministic)
-        weight = 1 + H.kinds.count("VisibilityRequirement") * (3 + 3 * nonbox) + 3 * sum(o["shape"] == "mesh" for o in prog["objs"]) \
+        weight = 1 + H.kinds.count("VisibilityRequirement") * (3 + 3 * nonbox) + 3 * sum(o["shape"] in ("mesh", "lmesh") for o in prog["objs"]) \
             + 2 * sum((prog["ws"] if o["cont"] is None else prog["conts"][o["cont"]])["kind"] == "box" for o in prog["objs"])
         cap = max(60, (900 if TIER == "quick" else 3000) // weight)
         H.full_cap = cap // 4
